@@ -29,7 +29,10 @@ Proof. destruct a; reflexivity. Qed.
 Section Proofs.
 Context {T : Type}.
 Variable cast : dt -> dt -> T -> T.
+Variable V : variant.
 Notation store := (@store T).
+Notation tens_ufunc := (tens_ufunc cast V).
+Notation wrap_call := (@wrap_call T V).
 Notation operand := (@operand T).
 Notation npsem := (@npsem T).
 
@@ -147,28 +150,34 @@ Definition wraps_tens (st : store) (sp : tspace) (r : operand) (rr : @rret T) : 
 
 Lemma wrap_call_none (st : store) sp nout : forall rets k l,
   wrap_call st sp nout (repeat None k) rets = Ok l ->
-  Forall2 (wraps_tens st sp) l rets
-  /\ Forall (fun rr => exists id, rr = RRBuf id /\ a_shape (rd st id) = ts_shape sp) rets.
+  Forall2 (wraps_tens st sp) l rets.
 Proof.
   induction rets as [|r rets IH]; intros k l Hw; cbn in Hw.
-  - inversion Hw; subst. split; constructor.
+  - inversion Hw; subst. constructor.
   - assert (Hhd : (match repeat (@None operand) k with o :: _ => o | [] => None end) = None)
       by (destruct k; reflexivity).
     assert (Htl : exists k', (match repeat (@None operand) k with _ :: t => t | [] => [] end) = repeat None k')
       by (destruct k; [exists 0%nat | exists k]; reflexivity).
     destruct Htl as [k' Htl]. rewrite Hhd, Htl in Hw.
     destruct r as [id|v|]; cbn in Hw.
-    + destruct (negb (ts_valid (call_space sp nout (rd st id)))) eqn:Ev.
-      { destruct (wrap_call st sp nout (repeat None k') rets); discriminate. }
-      destruct (shape_eqb (a_shape (rd st id)) (ts_shape sp)) eqn:Es.
-      2:{ destruct (wrap_call st sp nout (repeat None k') rets); discriminate. }
-      destruct (wrap_call st sp nout (repeat None k') rets) as [l'|] eqn:Ew; try discriminate.
-      inversion Hw; subst. apply IH in Ew as [HF2 HF]. apply shape_eqb_eq in Es.
-      split; constructor; auto.
-      * exists (call_space sp nout (rd st id)), id. repeat split; auto.
+    + destruct (v_grow V && (nout =? 1)%nat).
+      * destruct (ts_valid (meth_space sp (rd st id))) eqn:Ev.
+        2:{ destruct (wrap_call st sp nout (repeat None k') rets); discriminate. }
+        destruct (wrap_call st sp nout (repeat None k') rets) as [l'|] eqn:Ew; try discriminate.
+        inversion Hw; subst. apply IH in Ew. constructor; auto.
+        exists (meth_space sp (rd st id)), id. repeat split; auto.
+        -- unfold meth_space. destruct (is_floating _); [destruct (shape_eqb _ _)|]; reflexivity.
+        -- unfold meth_space. destruct (is_floating _); [destruct (shape_eqb _ _)|]; reflexivity.
+      * destruct (negb (ts_valid (call_space sp nout (rd st id)))) eqn:Ev.
+        { destruct (wrap_call st sp nout (repeat None k') rets); discriminate. }
+        destruct (shape_eqb (a_shape (rd st id)) (ts_shape sp)) eqn:Es.
+        2:{ destruct (wrap_call st sp nout (repeat None k') rets); discriminate. }
+        destruct (wrap_call st sp nout (repeat None k') rets) as [l'|] eqn:Ew; try discriminate.
+        inversion Hw; subst. apply IH in Ew. apply shape_eqb_eq in Es.
+        constructor; auto.
+        exists (call_space sp nout (rd st id)), id. repeat split; auto.
         -- unfold call_space. destruct (_ && _); cbn; congruence.
         -- unfold call_space. destruct (_ && _); cbn; reflexivity.
-      * exists id; auto.
     + destruct (wrap_call st sp nout (repeat None k') rets); discriminate.
     + destruct (wrap_call st sp nout (repeat None k') rets); discriminate.
 Qed.
@@ -190,7 +199,7 @@ Qed.
 Lemma tens_call_sound_gen (NP : npsem) (st : store) sp nout k ins kw rins rets st' :
   (k = 0 \/ k = nout)%nat ->
   map_opt tens_unwrap ins = Some rins ->
-  tens_ufunc cast NP st sp nout MCall ins kw (repeat None k) = Ok (rets, st') ->
+  tens_ufunc NP st sp nout MCall ins kw (repeat None k) = Ok (rets, st') ->
   exists rrets,
     raw_ufunc cast NP st MCall kw rins (repeat None nout) = Ok (rrets, st')
     /\ Forall2 (wraps_tens st' sp) rets rrets.
@@ -205,12 +214,12 @@ Proof.
   rewrite exit_all_none in Ht.
   destruct (wrap_call st2 sp nout (repeat None nout) rrets) as [l|] eqn:Ew; try discriminate.
   inversion Ht; subst. exists rrets. split; auto.
-  apply wrap_call_none in Ew as [HF2 _]. exact HF2.
+  apply wrap_call_none in Ew. exact Ew.
 Qed.
 
 Lemma tens_call_sound (NP : npsem) (st : store) sp nout ins kw rins rets st' :
   map_opt tens_unwrap ins = Some rins ->
-  tens_ufunc cast NP st sp nout MCall ins kw [] = Ok (rets, st') ->
+  tens_ufunc NP st sp nout MCall ins kw [] = Ok (rets, st') ->
   exists rrets,
     raw_ufunc cast NP st MCall kw rins (repeat None nout) = Ok (rrets, st')
     /\ Forall2 (wraps_tens st' sp) rets rrets.
@@ -218,33 +227,15 @@ Proof.
   intros Hu Ht. apply (tens_call_sound_gen NP st sp nout 0 ins kw rins rets st'); auto.
 Qed.
 
-Lemma tens_call_sound_old (NP : npsem) (st : store) sp nout ins kw rins rets st' :
-  map_opt tens_unwrap ins = Some rins ->
-  tens_ufunc cast NP st sp nout MCall ins kw [] = Ok (rets, st') ->
-  exists rrets,
-    raw_ufunc cast NP st MCall kw rins (repeat None nout) = Ok (rrets, st')
-    /\ Forall2 (wraps_tens st' sp) rets rrets.
-Proof.
-  intros Hu Ht. unfold tens_ufunc in Ht. cbn [length len_ok is_call Nat.eqb orb negb forallb] in Ht.
-  rewrite Hu in Ht. cbn [is_call] in Ht.
-  destruct (negb ((nout =? 1)%nat || (nout =? 2)%nat)); try discriminate.
-  rewrite pad_none_nil, enter_all_none in Ht.
-  destruct (raw_ufunc cast NP st MCall kw rins (repeat None nout)) as [[rrets st2]|] eqn:Er; try discriminate.
-  rewrite exit_all_none in Ht.
-  destruct (wrap_call st2 sp nout (repeat None nout) rrets) as [l|] eqn:Ew; try discriminate.
-  inversion Ht; subst. exists rrets. split; auto.
-  apply wrap_call_none in Ew as [HF2 _]. exact HF2.
-Qed.
-
 (* COMPLETENESS, __call__, no out: if NumPy succeeds, every result is an array
    of the shape of self's space and the result space can be built (array
    weighting safely castable), the ODL call succeeds. *)
-Lemma wrap_call_complete (st : store) sp nout : forall rets k,
+Lemma wrap_call_complete (st : store) sp nout : v_grow V = false -> forall rets k,
   Forall (fun rr => exists id, rr = RRBuf id /\ a_shape (rd st id) = ts_shape sp
                      /\ ts_valid (call_space sp nout (rd st id)) = true) rets ->
   exists l, wrap_call st sp nout (repeat None k) rets = Ok l.
 Proof.
-  induction rets as [|r rets IH]; intros k HF; cbn.
+  intros HV. induction rets as [|r rets IH]; intros k HF; cbn.
   - eexists; reflexivity.
   - inversion HF as [|? ? (id & -> & Hs & Hv) HF']; subst.
     assert (Hhd : (match repeat (@None operand) k with o :: _ => o | [] => None end) = None)
@@ -252,24 +243,59 @@ Proof.
     assert (Htl : exists k', (match repeat (@None operand) k with _ :: t => t | [] => [] end) = repeat None k')
       by (destruct k; [exists 0%nat | exists k]; reflexivity).
     destruct Htl as [k' Htl]. rewrite Hhd, Htl.
-    destruct (IH k' HF') as [l Hl]. rewrite Hl. cbn. rewrite Hv, Hs, shape_eqb_refl. cbn.
+    destruct (IH k' HF') as [l Hl]. rewrite Hl. cbn. rewrite HV, Hv, Hs, shape_eqb_refl. cbn.
     eexists; reflexivity.
 Qed.
 
 Lemma tens_call_complete (NP : npsem) (st : store) sp nout ins kw rins rrets st' :
+  v_grow V = false ->
   map_opt tens_unwrap ins = Some rins ->
   (nout = 1 \/ nout = 2)%nat ->
   raw_ufunc cast NP st MCall kw rins (repeat None nout) = Ok (rrets, st') ->
   Forall (fun rr => exists id, rr = RRBuf id /\ a_shape (rd st' id) = ts_shape sp
                      /\ ts_valid (call_space sp nout (rd st' id)) = true) rrets ->
-  exists rets, tens_ufunc cast NP st sp nout MCall ins kw [] = Ok (rets, st').
+  exists rets, tens_ufunc NP st sp nout MCall ins kw [] = Ok (rets, st').
 Proof.
-  intros Hu Hn Hr HF. unfold tens_ufunc. cbn [length len_ok is_call Nat.eqb orb negb forallb].
+  intros HV Hu Hn Hr HF. unfold Model.tens_ufunc. cbn [length len_ok is_call Nat.eqb orb negb forallb].
   rewrite Hu. cbn [is_call].
   replace (negb ((nout =? 1)%nat || (nout =? 2)%nat)) with false
     by (destruct Hn; subst; reflexivity).
   rewrite pad_none_nil, enter_all_none, Hr, exit_all_none.
-  destruct (wrap_call_complete st' sp nout rrets nout HF) as [l Hl]. rewrite Hl.
+  destruct (wrap_call_complete st' sp nout HV rrets nout HF) as [l Hl]. rewrite Hl.
+  eexists; reflexivity.
+Qed.
+
+(* REPAIRED variant (result space takes the shape of the result), one output:
+   complete with no shape guard at all *)
+Lemma wrap_call_complete_repaired (st : store) sp : v_grow V = true -> forall rets k,
+  Forall (fun rr => exists id, rr = RRBuf id /\ ts_valid (meth_space sp (rd st id)) = true) rets ->
+  exists l, wrap_call st sp 1 (repeat None k) rets = Ok l.
+Proof.
+  intros HV. induction rets as [|r rets IH]; intros k HF; cbn.
+  - eexists; reflexivity.
+  - inversion HF as [|? ? (id & -> & Hv) HF']; subst.
+    assert (Hhd : (match repeat (@None operand) k with o :: _ => o | [] => None end) = None)
+      by (destruct k; reflexivity).
+    assert (Htl : exists k', (match repeat (@None operand) k with _ :: t => t | [] => [] end) = repeat None k')
+      by (destruct k; [exists 0%nat | exists k]; reflexivity).
+    destruct Htl as [k' Htl]. rewrite Hhd, Htl.
+    destruct (IH k' HF') as [l Hl]. rewrite Hl. cbn. rewrite HV, Hv. cbn.
+    eexists; reflexivity.
+Qed.
+Lemma tens_call_complete_repaired (NP : npsem) (st : store) sp ins kw rins rrets st' :
+  v_grow V = true ->
+  map_opt tens_unwrap ins = Some rins ->
+  raw_ufunc cast NP st MCall kw rins [None] = Ok (rrets, st') ->
+  Forall (fun rr => exists id, rr = RRBuf id /\ ts_valid (meth_space sp (rd st' id)) = true) rrets ->
+  exists rets, tens_ufunc NP st sp 1 MCall ins kw [] = Ok (rets, st').
+Proof.
+  intros HV Hu Hr HF. unfold Model.tens_ufunc. cbn [length len_ok is_call Nat.eqb orb negb forallb].
+  rewrite Hu. cbn [is_call Nat.eqb orb negb].
+  rewrite pad_none_nil. cbn [repeat]. change [@None operand] with (repeat (@None operand) 1).
+  rewrite enter_all_none. cbn [repeat]. rewrite Hr.
+  change [@None operand] with (repeat (@None operand) 1). change [@None nat] with (repeat (@None nat) 1).
+  rewrite exit_all_none.
+  destruct (wrap_call_complete_repaired st' sp HV rrets 1 HF) as [l Hl]. rewrite Hl.
   eexists; reflexivity.
 Qed.
 
@@ -291,7 +317,7 @@ Lemma tens_meth_sound_gen (NP : npsem) (st : store) sp nout m ins kw rins outs r
   is_call m = false ->
   (outs = [] \/ outs = [None]) ->
   map_opt tens_unwrap ins = Some rins ->
-  tens_ufunc cast NP st sp nout m ins kw outs = Ok (rets, st') ->
+  tens_ufunc NP st sp nout m ins kw outs = Ok (rets, st') ->
   exists rr,
     raw_ufunc cast NP st m kw rins (if is_at m then [] else [None]) = Ok ([rr], st')
     /\ exists r, rets = [r] /\ wraps_meth st' r rr.
@@ -320,7 +346,7 @@ Qed.
 Lemma tens_meth_sound (NP : npsem) (st : store) sp nout m ins kw rins rets st' :
   is_call m = false ->
   map_opt tens_unwrap ins = Some rins ->
-  tens_ufunc cast NP st sp nout m ins kw [] = Ok (rets, st') ->
+  tens_ufunc NP st sp nout m ins kw [] = Ok (rets, st') ->
   exists rr,
     raw_ufunc cast NP st m kw rins (if is_at m then [] else [None]) = Ok ([rr], st')
     /\ exists r, rets = [r] /\ wraps_meth st' r rr.
@@ -345,7 +371,7 @@ Lemma tens_meth_complete (NP : npsem) (st : store) sp nout m ins kw rins rr st' 
   map_opt tens_unwrap ins = Some rins ->
   raw_ufunc cast NP st m kw rins (if is_at m then [] else [None]) = Ok ([rr], st') ->
   (forall id, rr = RRBuf id -> ts_valid (meth_space sp (rd st' id)) = true) ->
-  exists r, tens_ufunc cast NP st sp nout m ins kw [] = Ok ([r], st').
+  exists r, tens_ufunc NP st sp nout m ins kw [] = Ok ([r], st').
 Proof.
   intros Hm Hu Hr Hv. unfold tens_ufunc.
   assert (Hlen : len_ok m nout 0 = true) by (unfold len_ok; rewrite Hm; reflexivity).
@@ -378,7 +404,7 @@ Lemma tens_out_sound (NP : npsem) (st : store) sp m ins kw rins o id rets st' :
   arity1 NP -> is_at m = false -> kw_dtype kw = None ->
   tens_valid_out (Some o) = true -> op_buf o = Some id ->
   map_opt tens_unwrap ins = Some rins ->
-  tens_ufunc cast NP st sp 1 m ins kw [Some o] = Ok (rets, st') ->
+  tens_ufunc NP st sp 1 m ins kw [Some o] = Ok (rets, st') ->
   rets = [o] /\ raw_ufunc cast NP st m kw rins [Some id] = Ok ([RRBuf id], st').
 Proof.
   intros Ha Hat Hd Hv Hb Hu Ht. unfold tens_ufunc in Ht.
@@ -404,7 +430,7 @@ Lemma tens_out_complete (NP : npsem) (st : store) sp m ins kw rins o id rrets st
   tens_valid_out (Some o) = true -> op_buf o = Some id ->
   map_opt tens_unwrap ins = Some rins ->
   raw_ufunc cast NP st m kw rins [Some id] = Ok (rrets, st') ->
-  tens_ufunc cast NP st sp 1 m ins kw [Some o] = Ok ([o], st').
+  tens_ufunc NP st sp 1 m ins kw [Some o] = Ok ([o], st').
 Proof.
   intros Ha Hat Hd Hv Hb Hu Hr. unfold tens_ufunc.
   assert (Hlen : len_ok m 1 1 = true) by (unfold len_ok; destruct (is_call m); reflexivity).
